@@ -90,6 +90,9 @@ func newRJFix(c *core.Ctx, rule string) *rjFix {
 				if qa.kind == "const" && qa.n != fargs[i] {
 					match = false
 				}
+				if qa.kind == "fn" {
+					match = false // as in the real stores: an unevaluated expression equals no stored constant
+				}
 			}
 			if !match {
 				continue
@@ -437,6 +440,7 @@ func rjPool() []hPrem {
 		hPrem{kind: "ineq", l: X, r: hc(2)},
 		hPrem{kind: "atom", pred: ":le", args: []hTerm{Y, hf("fn:plus", X, hc(1))}},
 		hPrem{kind: "atom", pred: ":match_pair", args: []hTerm{X, Y, hv("Z")}},
+		hPrem{kind: "eq", l: hf("fn:plus", X, hc(1)), r: hf("fn:plus", Y, hc(0))},
 		hPrem{kind: "atom", pred: ":list:member", args: []hTerm{Y, hf("fn:list", hc(1), hc(3), X)}},
 		hPrem{kind: "atom", pred: ":list:member", args: []hTerm{X, hf("fn:list", hc(2), hc(3), hc(2))}},
 	)
@@ -466,6 +470,21 @@ func rjClauses(wide bool) []hClause {
 						continue
 					}
 					out = append(out, hClause{headPred: "h", head: h, prems: []hPrem{pool[i], pool[j], pool[l]}})
+				}
+			}
+		}
+	}
+	// an extension premise before, between and after two of the binding atoms a(X), b(Y), e(X,Y)
+	for _, h := range heads {
+		for x := base; x < len(pool); x++ {
+			for _, i := range []int{0, 1, 2} {
+				for _, j := range []int{0, 1, 2} {
+					if i == j {
+						continue
+					}
+					out = append(out, hClause{headPred: "h", head: h, prems: []hPrem{pool[x], pool[i], pool[j]}},
+						hClause{headPred: "h", head: h, prems: []hPrem{pool[i], pool[x], pool[j]}},
+						hClause{headPred: "h", head: h, prems: []hPrem{pool[i], pool[j], pool[x]}})
 				}
 			}
 		}
